@@ -605,7 +605,7 @@ fn strip_marker(d: &Dump, marker: u64) -> Dump {
 
 pub fn c08(tier: Tier) -> i32 {
     let rep = Report::new("C08", tier);
-    rep.rule("every history of the crash alphabet up to the stated length; for EVERY counted I/O step k of the clean run (writes, appends, fsyncs, set_len, create, rename) the history is re-executed with a one-shot EIO injected at step k; execution stops after the operation that received the error; oracle: Err => live state unchanged, Ok (error swallowed) => live state fully updated; then, in two flows (the failed operation re-issued first / not re-issued), a marker transaction that introduces new label and relationship-type names must commit and be visible; after drop+reopen the database opens and shows the faulted operation entirely or not at all, plus the marker with its names intact; histories include a reopen right before the faulted operation; non-trivial = one (history, k) pair");
+    rep.rule("every history of the crash alphabet up to the stated length; for EVERY counted I/O step k of the clean run (writes, appends, fsyncs, set_len, create, rename) the history is re-executed with a one-shot EIO injected at step k; execution stops after the operation that received the error; oracle: Err => live state unchanged, Ok (error swallowed) => live state fully updated; then, in two flows (the failed operation re-issued first / not re-issued), a marker transaction that introduces new label and relationship-type names must commit and be visible; after drop+reopen the database opens and shows the faulted operation entirely or not at all, plus the marker with its names intact; histories include a reopen right before the faulted operation; plus a family of commits that the engine may refuse without any fault (a vector of another dimension than the indexed ones, alone and together with other writes): an error means no live effect, and after reopen the transaction is absent or complete; non-trivial = one (history, k) pair");
     let mut histories = crash_histories(tier.pick(2, 3), tier == Tier::Thorough);
     {
         // a reopen right before the operation that receives the fault (fresh handles have fresh cursors)
@@ -835,6 +835,64 @@ pub fn c08(tier: Tier) -> i32 {
         }
         rep.sample(json!({"history": show_history(h), "io_steps": total_io}));
     });
+    // commits that may fail WITHOUT any injected fault (a request the engine can refuse at commit time: a vector of
+    // another dimension than the indexed ones, alone or together with other writes): if commit reports an error the
+    // live state is unchanged, and after reopen the transaction is present entirely or not at all
+    {
+        let pre = vec![
+            Op::Tx(vec![Op::CreateNode { e: 1, labels: vec!["A"] }, Op::SetNodeProp { e: 1, k: "k", v: Val::I(1) }, Op::SetVector { e: 1, v: [1, 1] }]),
+            Op::Tx(vec![Op::CreateNode { e: 2, labels: vec!["A"] }, Op::SetVector { e: 2, v: [3, 0] }]),
+        ];
+        let bodies: Vec<Vec<Op>> = vec![
+            vec![Op::SetVector3 { e: 1, v: [1, 1, 1] }],
+            vec![Op::SetNodeProp { e: 1, k: "k", v: Val::I(2) }, Op::SetVector3 { e: 1, v: [1, 1, 1] }],
+            vec![Op::CreateNode { e: 3, labels: vec!["B"] }, Op::SetVector { e: 3, v: [0, 0] }, Op::SetVector3 { e: 2, v: [0, 0, 1] }, Op::CreateEdge { s: 1, t: "R", d: 3 }],
+        ];
+        for (bi, body) in bodies.iter().enumerate() {
+            rep.add_states(1);
+            rep.add_traces(1);
+            rep.add_transitions(4);
+            let r = crate::seq::run_history(&pre);
+            let Some(mut sut) = r.sut else { continue };
+            if r.failed_at.is_some() {
+                continue;
+            }
+            let model = r.model.clone();
+            let before = sut.dump(&ctr_spec());
+            let mut m_after = model.clone();
+            let op = Op::Tx(body.clone());
+            let res = sut.apply(&op, &model);
+            let live = sut.dump(&ctr_spec());
+            let kinds_v: Vec<String> = std::iter::once("refused_commit_family".to_string()).chain(kinds(std::slice::from_ref(&op))).collect();
+            let replay = json!({"engine":"fault","family":"commit_refused_without_fault","prefix": show_history(&pre), "transaction": op.show()});
+            match &res {
+                Err(e) => {
+                    rep.add_nontrivial(1);
+                    if let Some((c, d)) = before.diff(&live) {
+                        rep.outcome("failed_commit_visible");
+                        rep.violation(Violation { class: format!("failed_commit_visible:{c}"), kinds: kinds_v, replay, detail: format!("commit reported '{e}' (no fault was injected) but the live state changed: {d}") });
+                        continue;
+                    }
+                }
+                Ok(()) => m_after.apply(&op),
+            }
+            if let Err(e) = sut.apply(&Op::DropOpen, &m_after) {
+                rep.violation(Violation { class: format!("reopen_failed_after_refused_commit:{}", err_class(&e)), kinds: kinds_v, replay, detail: e });
+                continue;
+            }
+            let reopened = sut.dump(&ctr_spec());
+            let expect_all = crate::seq::run_history(&[pre.clone(), vec![op.clone()]].concat());
+            let all = expect_all.sut.as_ref().filter(|_| expect_all.failed_at.is_none()).map(|s| s.dump(&ctr_spec()));
+            let ok = before.diff(&reopened).is_none() || all.as_ref().is_some_and(|a| a.diff(&reopened).is_none()) || (res.is_ok() && live.diff(&reopened).is_none());
+            if !ok {
+                let (c, d) = before.diff(&reopened).unwrap_or(("diff:unknown".into(), String::new()));
+                rep.outcome("refused_commit_partial_after_reopen");
+                rep.violation(Violation { class: format!("refused_commit_partial_after_reopen:{c}"), kinds: kinds_v, replay, detail: format!("body {bi}: commit result {res:?}; after reopen the transaction is neither absent nor complete: {d}") });
+                continue;
+            }
+            rep.outcome(if res.is_ok() { "mixed_dimension_commit_accepted" } else { "refused_commit_without_effect" });
+        }
+    }
     rep.assume("one I/O error per execution; the error is returned by the seam instead of performing the effect (no partial write)");
     rep.finish()
 }
